@@ -791,6 +791,10 @@ fn finish(
             eprintln!("ENGINE-ERROR cannot write evidence: {e}");
             std::process::exit(2);
         }
+        // a second copy that the next quick run does not overwrite (the thorough runs take hours in all)
+        if tier == Tier::Thorough {
+            let _ = std::fs::write(edir.join(format!("{}.thorough.json", p.id)), serde_json::to_string_pretty(&ev).unwrap());
+        }
     }
     println!(
         "property={} tier={} states={} transitions={} evaluations={} nontrivial={} outcomes={} violations={} known={} wall={:.1}s exhaustive={}",
